@@ -47,6 +47,13 @@ struct Shm {
   volatile int32_t nsigs;
   volatile int32_t pipe_fds[8];
   volatile int32_t npipes;
+  volatile int32_t reaped;        // waitpid() inside the call has returned the child's pid
+  volatile uint64_t t0_ns;        // CLOCK_MONOTONIC when the scenario process entered the phosg call
+  volatile uint64_t timeout_us;   // run_process timeout of this scenario (0 = none / generous)
+  volatile uint64_t t_term_ns;    // when the first signal was sent
+  volatile int32_t kill_sent;     // SIGKILL has been sent
+  volatile int32_t late_nosig;    // loop iterations begun > timeout + 5 s after t0 with no signal sent yet
+  volatile int32_t late_nokill;   // loop iterations begun > 10 s after the first signal, child not SIGKILLed yet
   volatile uint32_t rec_len;
   char rec[48 * 1024];
 };
@@ -82,6 +89,12 @@ struct Plan {
   }
 };
 static Plan g_plan;
+
+static uint64_t mono_ns() {
+  struct timespec ts;
+  clock_gettime(CLOCK_MONOTONIC, &ts);
+  return (uint64_t)ts.tv_sec * 1000000000ULL + ts.tv_nsec;
+}
 
 static void sleep_us(uint64_t us) {
   struct timespec ts;
@@ -209,8 +222,25 @@ static void apply_delay(int kind, uint64_t k) {
 extern "C" pid_t __wrap_waitpid(pid_t p, int* st, int opt) {
   if (!g_active) return __real_waitpid(p, st, opt);
   uint64_t k = ++g_shm->calls[K_WAITPID];
+  // run_process calls waitpid once per loop iteration: stamp iterations that begin long after the deadline.
+  // A correct loop signals the child in the first iteration that begins after the deadline, so it can be caught
+  // here at most once without a signal; the monitor asks for three.
+  if (g_shm->timeout_us) {
+    uint64_t now = mono_ns();
+    if (g_shm->nsigs == 0) {
+      if (now > g_shm->t0_ns + (g_shm->timeout_us + 5000000ULL) * 1000ULL) g_shm->late_nosig = g_shm->late_nosig + 1;
+    } else if (!g_shm->kill_sent && now > g_shm->t_term_ns + 10000000000ULL) {
+      g_shm->late_nokill = g_shm->late_nokill + 1;
+    }
+  }
   apply_delay(K_WAITPID, k);
-  return __real_waitpid(p, st, opt);
+  pid_t r = __real_waitpid(p, st, opt);
+  if (r > 0 && r == g_shm->child_pid) {
+    int e = errno;
+    g_shm->reaped = 1;
+    errno = e;
+  }
+  return r;
 }
 extern "C" int __wrap_poll(struct pollfd* fds, nfds_t n, int timeout) {
   if (!g_active) return __real_poll(fds, n, timeout);
@@ -261,9 +291,13 @@ extern "C" int __wrap_pipe(int* fds) {
 extern "C" int __wrap_kill(pid_t p, int sig) {
   if (g_active) {
     g_shm->calls[K_KILL] = g_shm->calls[K_KILL] + 1;
+    if (g_shm->nsigs == 0) g_shm->t_term_ns = mono_ns();
+    if (sig == SIGKILL) g_shm->kill_sent = 1;
     if (g_shm->nsigs < 8) {
       g_shm->sigs[g_shm->nsigs] = sig;
       g_shm->nsigs = g_shm->nsigs + 1;
+    } else {
+      g_shm->nsigs = 8;
     }
   }
   return __real_kill(p, sig);
@@ -417,6 +451,12 @@ static Expect model(const Scenario& sc, const string& payload) {
       case 'T':
         e.ignores_term = true;
         break;
+      case 'Y':
+        // ticks for ever: whatever was returned must be a prefix of the stream
+        (a[0] == 1 ? s1 : s2).gen(a[0] == 1 ? e.out : e.err, 1 << 16);
+        e.blocks_forever = true;
+        return e;
+      case 'G':  // the grandchild writes nothing
       default:
         break;
     }
@@ -630,6 +670,75 @@ static vector<Scenario> build_scenarios(const vf::Ctx& c) {
       sc.plan = i == 2 ? pick_plan(9100) : Plan();
       finish(sc);
     }
+  }
+  // ---- run_process: timeouts against children whose poll set is never quiet (ticking output, a closed stream that
+  //      reports POLLHUP/POLLERR on every poll): the timeout must still end the child
+  {
+    struct NB { const char* name; vector<string> ops; };
+    const NB nbs[] = {
+        {"timeout-ticking-stdout", {W(1, 50), "Y:1:150"}},
+        {"timeout-ticking-stderr", {"Y:2:250"}},
+        {"timeout-closed-stdout-hangs", {W(1, 100), "C:1", "S:600000"}},
+        {"timeout-closed-stderr-hangs", {"C:2", W(1, 7), "S:600000"}},
+        {"timeout-closed-stdin-hangs", {"C:0", "S:600000"}},
+        {"timeout-ticking-sigterm-ignored", {"T", "Y:1:200"}},
+    };
+    int nbi = 0;
+    for (const NB& nb : nbs) {
+      nbi++;
+      for (int pay = 0; pay < 2; pay++)
+        for (int to = 0; to < 2; to++) {
+          bool ign = string(nb.name).find("ignored") != string::npos;
+          if (quick && (ign ? (pay || to) : (to != (nbi + pay) % 2))) continue;
+          Scenario sc;
+          sc.api = RP;
+          sc.beh = nb.name;
+          sc.ops = nb.ops;
+          sc.payload = pay ? 200000 : 0;
+          sc.stdin_null = !pay && (to == 0);
+          sc.vol = 100;
+          sc.timeout_us = ign ? 1500000 : (to ? 1000000 : 300000);
+          sc.check = (pay + to) == 2;
+          sc.plan = (pay == to) ? Plan() : pick_plan(9400 + out.size());
+          finish(sc);
+        }
+    }
+  }
+  // ---- a grandchild keeps the write ends of the child's stdout/stderr open after the child has exited
+  //      (background job / daemonising child): the result is the child's bytes and status, and nothing may spin
+  {
+    static const size_t vols[] = {10, 5000, 65536, 200000};
+    for (size_t V : vols)
+      for (int never = 0; never < 2; never++)
+        for (int pl = 0; pl < (quick ? 1 : 3); pl++) {
+          Scenario sc;
+          sc.api = RP;
+          sc.beh = never ? "lingering-writer-never-closes" : "lingering-writer-2.5s";
+          sc.payload = pl == 1 ? 3000 : 0;
+          sc.stdin_null = pl == 2;
+          sc.vol = V;
+          sc.ops = {never ? "G:20000" : "G:2500", W(1, V), W(2, V % 3000 + 5), fmt("X:%d", pl == 0 ? 3 : 0)};
+          if (pl == 1) sc.ops.insert(sc.ops.begin() + 1, "R:*:65536:0");
+          sc.check = pl == 2;
+          sc.plan = pl == 0 ? Plan() : pick_plan(9500 + out.size());
+          finish(sc);
+        }
+    static const size_t cvols[] = {10, 5000, 70000};
+    for (size_t V : cvols)
+      for (int mode = 0; mode < 3; mode++) {  // 0: 2.5 s linger, no deadline; 1: 2.5 s linger, deadline; 2: never closes, no deadline
+        Scenario sc;
+        sc.api = CM;
+        sc.beh = mode == 2 ? "lingering-writer-never-closes" : "lingering-writer-2.5s";
+        sc.payload = V == 5000 ? 2000 : 0;
+        sc.vol = V;
+        // the pause makes sure the parent is back in poll() when the child exits (otherwise it is a race whether the
+        // parent notices the exit at the top of its loop)
+        sc.ops = {mode == 2 ? "G:20000" : "G:2500", "R:*:65536:0", W(1, V), "S:300", fmt("X:%d", mode)};
+        sc.timeout_us = mode == 1 ? 60000000ULL : 0;
+        sc.ptr_overload = mode == 1;
+        sc.plan = quick || mode == 0 ? Plan() : pick_plan(9600 + out.size());
+        finish(sc);
+      }
   }
   // ---- run_process called repeatedly in one process: descriptors must not accumulate
   for (int i = 0; i < (quick ? 2 : 6); i++) {
@@ -860,7 +969,9 @@ static void sp_run_process(const Scenario& sc) {
   bool threw = false;
   string msg;
   g_shm->phase = 1;
+  g_shm->t0_ns = mono_ns();
   g_active = true;
+  vf::poison_errno();
   try {
     res = phosg::run_process(cmd, sc.stdin_null ? nullptr : &payload, sc.check, nullptr, nullptr, sc.timeout_us);
   } catch (const std::exception& ex) {
@@ -942,8 +1053,11 @@ static void sp_repeat(const Scenario& sc) {
     Expect e = model(s, payload);
     vector<string> cmd = make_cmd(s);
     g_shm->npipes = 0;
+    g_shm->reaped = 0;
+    g_shm->child_pid = 0;
     g_active = true;
     g_shm->phase = 1;
+    vf::poison_errno();
     try {
       auto res = phosg::run_process(cmd, &payload, false);
       g_active = false;
@@ -982,6 +1096,7 @@ static void sp_communicate(const Scenario& sc) {
   {
     g_shm->phase = 1;
     g_active = true;  // constructor forks inside
+    vf::poison_errno();
     try {
       // communicate never reads stderr: give it a pipe only when everything the script writes there fits into one
       const bool err_pipe = e.err.size() <= 16384 && (sc.index % 2 == 0);
@@ -990,6 +1105,7 @@ static void sp_communicate(const Scenario& sc) {
       child = sp.pid();
       try {
         t0 = mono();
+        vf::poison_errno();
         if (sc.ptr_overload) out = sp.communicate(payload.data(), payload.size(), sc.timeout_us);
         else out = sp.communicate(payload, sc.timeout_us);
         t1 = mono();
@@ -1042,6 +1158,7 @@ static void sp_lifecycle(const Scenario& sc) {
   pid_t child = 0;
   g_shm->phase = 1;
   g_active = true;
+  vf::poison_errno();
   try {
     phosg::Subprocess sp(cmd);
     child = sp.pid();
@@ -1108,6 +1225,8 @@ static void sp_selftest(const Scenario& sc) {
 
 static void sp_main(const Scenario& sc) {
   prctl(PR_SET_PDEATHSIG, SIGKILL);
+  setpgid(0, 0);  // own process group: the monitor kills the whole group (lingering grandchildren) afterwards
+  g_shm->timeout_us = (sc.api == RP && sc.timeout_us && sc.timeout_us < 100000000ULL) ? sc.timeout_us : 0;
   g_plan = sc.plan;
   unlink(g_receipt.c_str());
   switch (sc.api) {
@@ -1145,6 +1264,8 @@ struct Sampler {
   pid_t sp;
   const Scenario& sc;
   int consec = 0;
+  int rconsec = 0;            // consecutive samples: child reaped, call not returned, no byte moved
+  uint64_t rbytes = 0, rprev_calls = 0, rcalls0 = 0;
   int zconsec = 0;            // consecutive samples: child exited (zombie), parent blocked for ever in one call
   uint64_t zcalls = 0;
   uint64_t last_bytes = ~0ULL;
@@ -1195,6 +1316,59 @@ struct Sampler {
       }
     }
 
+    // (T2) by the parent's own clock readings at the top of its loop, three or more iterations began more than 5 s
+    // after the deadline without any signal having been sent (resp. > 10 s after SIGTERM without SIGKILL)
+    if (sc.api == RP && g_shm->timeout_us && child > 0 && !g_shm->reaped && (g_shm->late_nosig >= 3 || g_shm->late_nokill >= 3)) {
+      ProcStat cs = proc_stat(child);
+      if (cs.ok && cs.state != 'Z' && cs.ppid == sp) {
+        bool nosig = g_shm->late_nosig >= 3;
+        w.found = true;
+        w.key = nosig ? "run_process:timeout:no-signal-after-deadline" : "run_process:timeout:no-sigkill-after-grace";
+        w.what = fmt("timeout_usecs=%" PRIu64 ": %d loop iterations (waitpid calls) began more than %s, child %d is alive (state %c, syscall '%s'); "
+                     "signals sent: %d; the parent has made %" PRIu64 " poll calls, %" PRIu64 " ms of them timed out; parent syscall '%s'",
+                     sc.timeout_us, nosig ? (int)g_shm->late_nosig : (int)g_shm->late_nokill,
+                     nosig ? "5 s after the deadline without any signal having been sent" : "10 s after SIGTERM without SIGKILL having been sent",
+                     child, cs.state, proc_syscall(child).line.c_str(), (int)g_shm->nsigs, (uint64_t)g_shm->calls[K_POLL],
+                     (uint64_t)g_shm->poll_timeout_ms_sum, proc_syscall(sp).line.c_str());
+        return w;
+      }
+    }
+    // (R) the child has been reaped (waitpid returned it) but the call does not return: the parent keeps making calls,
+    // or sits in one without a timeout, and no byte moves.  After the reap a correct parent only drains what is in the
+    // pipes (every read moves bytes or ends the drain) and returns.
+    if (g_shm->reaped) {
+      const bool advancing = calls != rprev_calls;
+      rprev_calls = calls;
+      ProcStat ps = proc_stat(sp);
+      Sys py;
+      bool blocked_forever = false;
+      if (ps.ok && ps.state == 'S') {
+        py = proc_syscall(sp);
+        blocked_forever = py.ok && ((py.nr == 7 && (int)py.a2 == -1) || py.nr == 0 || py.nr == 1);
+      }
+      if ((advancing || blocked_forever) && (rconsec == 0 || bytes == rbytes)) {
+        if (rconsec == 0) {
+          rbytes = bytes;
+          rcalls0 = calls;
+        }
+        if (++rconsec >= 100) {
+          string api = sc.api == CM ? (sc.timeout_us ? "communicate:deadline" : "communicate:no-deadline") : API_NAMES[sc.api];
+          w.found = true;
+          w.key = fmt("%s:hang:after-child-reaped:parent-%s", api.c_str(), calls != rcalls0 ? "spinning" : sysname(py.nr));
+          w.what = fmt("for 100 consecutive samples (>= 5 s) after waitpid() had returned the child, the call did not return and no byte "
+                       "moved while the parent made %" PRIu64 " further waitpid/poll/read/write calls (read calls so far: %" PRIu64
+                       "); parent state %c syscall '%s'; holders of the pipes: parent fds %s",
+                       calls - rcalls0, (uint64_t)g_shm->calls[K_READ], ps.ok ? ps.state : '?', proc_syscall(sp).line.c_str(),
+                       [&] { string r; for (auto& kv : list_fds(sp)) if (kv.second.compare(0, 5, "pipe:") == 0) r += fmt("%d->%s ", kv.first, kv.second.c_str()); return r; }().c_str());
+          return w;
+        }
+      } else {
+        rconsec = 0;
+      }
+      consec = 0;
+      zconsec = 0;
+      return w;
+    }
     if (child <= 0) {
       consec = 0;
       return w;
@@ -1363,6 +1537,9 @@ static Outcome run_scenario(vf::Ctx& c, const Scenario& sc, bool verbose) {
   }
   close(done[0]);
   if (wit.found || oc.hung) kill_scenario(sp);
+  // The scenario process is its own group leader; while it is unreaped (zombie or just killed) its pid cannot be
+  // reused, so this reaches exactly its descendants: scripted children and lingering grandchildren.
+  __real_kill(-sp, SIGKILL);
   int st = 0;
   while (__real_waitpid(sp, &st, 0) < 0 && errno == EINTR) {
   }
